@@ -97,6 +97,13 @@ def stdOp (toks : List String) : Option String :=
         pure (hv, K, tv))
       pure ("ok " ++ showBytes (encReadFullStatus gen ds))
     | _ => none
+  | ["stdenc", "tidiscsi", pv] => do
+    -- {name=x…, pad=i…}
+    match ← PVText.parsePV pv with
+    | .dict d =>
+      let pad := match PDict.get? d "pad" with | some (.int n) => n | _ => 0
+      pure ("ok " ++ showBytes (encTidIscsiName (pvBytes (.dict d) "name") pad))
+    | _ => none
   | ["stdenc", "vpd83", pv] => do
     -- {header={…}, descs=[{header={…}, ty=i0|1|2|3|4|5|6|7|8, body=x…, vid=x…, rest=x…, cid=i…, ext=x…, dir=x…, idext=x…, code=i…, v={…}}, …]}
     match ← PVText.parsePV pv with
